@@ -57,3 +57,16 @@ Print Assumptions C01_final_is_last_accepted.
 Print Assumptions C01_test_sees_candidate.
 Print Assumptions C01_basis.
 Print Assumptions C01_loop_follows_lsteps.
+
+(* ---- a following run() on a RE-USED Lithium object (Model/Session.v): same statements for EVERY previous
+   world (any counters, temp dir, stale last_interesting, written flag) *)
+From Lithium Require Import Session SessionProofs.
+
+Theorem C01_session_final_is_last_accepted :
+  forall S (strat : strategy S) verdict fuel tc0 file0 prev rc w,
+    content tc0 = file0 ->
+    run_on strat verdict fuel tc0 (carry true prev file0) = Finished rc w ->
+    w_file w = last_accepted (chron w) file0.
+Proof. exact session_final_is_last_accepted. Qed.
+
+Print Assumptions C01_session_final_is_last_accepted.
